@@ -122,8 +122,10 @@ func (enc *Encoder) writePtr(v interface{}, encode func(m ValueEncoder, v interf
 		enc.WriteUint16(*(*uint16)(reflect2.PtrOf(v)))
 	case reflect.Uint32:
 		enc.WriteUint32(*(*uint32)(reflect2.PtrOf(v)))
-	case reflect.Uint64, reflect.Uintptr:
+	case reflect.Uint64:
 		enc.WriteUint64(*(*uint64)(reflect2.PtrOf(v)))
+	case reflect.Uintptr:
+		enc.WriteUint64(uint64(*(*uintptr)(reflect2.PtrOf(v))))
 	case reflect.Bool:
 		enc.WriteBool(*(*bool)(reflect2.PtrOf(v)))
 	case reflect.Float32:
